@@ -25,7 +25,7 @@ from pathlib import Path
 import numpy as np
 
 ROOT = Path(__file__).resolve().parent.parent
-EVIDENCE_DIR = ROOT / "evidence"
+EVIDENCE_DIR = Path(os.environ["NSSMC_EVIDENCE_DIR"]) if os.environ.get("NSSMC_EVIDENCE_DIR") else ROOT / "evidence"  # (override only used when checks are pointed at a scratch worktree)
 REPLAY_DIR = ROOT / "replays"
 FINDINGS_FILE = ROOT / "known_findings.json"
 
@@ -303,7 +303,7 @@ class Ctx:
             "wall_s": round(time.time() - self.t0, 3),
             "violations": int(n_viol),
         }
-        EVIDENCE_DIR.mkdir(exist_ok=True)
+        EVIDENCE_DIR.mkdir(parents=True, exist_ok=True)
         (EVIDENCE_DIR / f"{self.pid}.json").write_text(json.dumps(ev, indent=1))
 
 
